@@ -83,6 +83,38 @@ mod verif_kani_value_spans {
     }
 
     // RawString: a stored span reads back the same; to_str / despan give exactly input[span]
+    // (the same for 8-byte inputs in the thorough tier)
+    #[kani::proof]
+    #[kani::unwind(12)]
+    fn k14_rawstring_despan_n8() {
+        let bytes: [u8; 8] = kani::any();
+        let mut i = 0;
+        while i < 8 {
+            kani::assume(bytes[i] < 0x80);
+            i += 1;
+        }
+        let input = match core::str::from_utf8(&bytes) {
+            Ok(s) => s,
+            Err(_) => return,
+        };
+        let a: usize = kani::any();
+        let b: usize = kani::any();
+        kani::assume(a <= b && b <= 8);
+        let mut raw = RawString::with_span(a..b);
+        let text = raw.to_str(input);
+        assert!(text.len() == b - a, "to_str length differs from the span");
+        assert!(text.as_bytes() == &bytes[a..b], "to_str is not input[span]");
+        raw.despan(input);
+        assert!(raw.span().is_none(), "despan left a span behind");
+        match raw.as_str() {
+            Some(s) => assert!(s.as_bytes() == &bytes[a..b], "despan text is not input[span]"),
+            None => assert!(false, "despan left no text"),
+        }
+        kani::cover!(a < b);
+        core::mem::forget(raw);
+    }
+
+    // RawString: a stored span reads back the same; to_str / despan give exactly input[span]
     #[kani::proof]
     #[kani::unwind(8)]
     fn k14_rawstring_despan() {
